@@ -20,6 +20,7 @@ import (
 	"encoding/hex"
 	"fmt"
 	"math/big"
+	"reflect"
 	"sort"
 	"strings"
 	"sync"
@@ -28,8 +29,10 @@ import (
 	"time"
 
 	"github.com/icon-project/goloop/common"
+	"github.com/icon-project/goloop/common/crypto"
 	"github.com/icon-project/goloop/common/db"
 	"github.com/icon-project/goloop/common/merkle"
+	"github.com/icon-project/goloop/common/trie"
 	"github.com/icon-project/goloop/common/trie/ompt"
 	"github.com/icon-project/goloop/service/state"
 	"github.com/icon-project/goloop/verifshim/ev"
@@ -111,7 +114,7 @@ type c20Source struct {
 	root   []byte  // trie root / world state hash
 	vhash  []byte  // world: validator list hash
 	items  []c20Item
-	byKey  map[string]int
+	byKey  map[string][]int // hash -> items (one per bucket the source holds it in)
 	start  func(b merkle.Builder) (interface{}, error)
 	verify func(target db.Database) string
 }
@@ -137,10 +140,31 @@ func c20Collect(rec *c20RecDB) []c20Item {
 }
 
 func (s *c20Source) index() {
-	s.byKey = map[string]int{}
+	s.byKey = map[string][]int{}
 	for i, it := range s.items {
-		s.byKey[it.key] = i
+		s.byKey[it.key] = append(s.byKey[it.key], i)
 	}
+}
+
+// find returns the index of the item (bucket, key) or -1.
+func (s *c20Source) find(bucket db.BucketID, key string) int {
+	for _, i := range s.byKey[key] {
+		if s.items[i].bucket == bucket {
+			return i
+		}
+	}
+	return -1
+}
+
+// sharedHashes: hashes the source holds in more than one bucket.
+func (s *c20Source) sharedHashes() int {
+	n := 0
+	for _, is := range s.byKey {
+		if len(is) > 1 {
+			n++
+		}
+	}
+	return n
 }
 
 func c20TrieSource(kvs []c20KV) *c20Source {
@@ -207,7 +231,28 @@ var (
 	c20Store    = [][2]string{{"\x00\x11", strings.Repeat("s", 40)}, {"\x00\x12", strings.Repeat("t", 40)}, {"\x01", "u"}}
 )
 
-func c20WorldSource(large bool) *c20Source {
+// c20WorldSource: variant 1 = small, 2 = large, 3 = large and the contract code
+// is byte-identical to a node of the contract's storage trie (the same hash is
+// then part of the state in the trie bucket AND in the bytes-by-hash bucket).
+func c20WorldSource(variant int) *c20Source {
+	code := c20Code
+	if variant == 3 {
+		// nodes that do not depend on the code = nodes of the storage trie
+		a := c20WorldSourceWithCode(2, []byte("code A "+strings.Repeat("a", 50)))
+		b := c20WorldSourceWithCode(2, []byte("code B "+strings.Repeat("b", 50)))
+		best := ""
+		for _, it := range a.items {
+			if it.bucket == db.MerkleTrie && b.find(db.MerkleTrie, it.key) >= 0 && (best == "" || len(it.val) < len(best)) {
+				best = it.val
+			}
+		}
+		code = []byte(best)
+	}
+	return c20WorldSourceWithCode(variant, code)
+}
+
+func c20WorldSourceWithCode(variant int, c20Code []byte) *c20Source {
+	large := variant >= 2
 	rec := &c20RecDB{inner: db.NewMapDB()}
 	ws := state.NewWorldState(rec, nil, nil, nil, nil)
 	ws.GetAccountState(c20EOA.ID()).SetBalance(big.NewInt(1000))
@@ -227,7 +272,7 @@ func c20WorldSource(large bool) *c20Source {
 	}
 	wss := ws.GetSnapshot()
 	wss.Flush()
-	s := &c20Source{name: fmt.Sprintf("world{EOA, contract(code,%d storage entries), validators=%v}", len(store), large), world: true,
+	s := &c20Source{name: fmt.Sprintf("world{EOA, contract(code,%d storage entries), validators=%v, code-is-a-storage-trie-node=%v}", len(store), large, variant == 3), world: true,
 		root: wss.StateHash(), vhash: wss.GetValidatorSnapshot().Hash(), items: c20Collect(rec)}
 	s.index()
 	s.start = func(b merkle.Builder) (interface{}, error) {
@@ -264,6 +309,153 @@ func c20WorldSource(large bool) *c20Source {
 		}
 		if code, err := nc.Code(); err != nil || !bytes.Equal(code, c20Code) {
 			return fmt.Sprintf("contract code not rebuilt (err=%v)", err)
+		}
+		return ""
+	}
+	return s
+}
+
+// ---- object tries: values are references to blobs in the bytes-by-hash bucket ----
+
+type c20Blob struct {
+	bucket db.Bucket
+	hash   []byte
+	data   []byte
+}
+
+func (o *c20Blob) Bytes() []byte { return o.hash }
+func (o *c20Blob) Reset(d db.Database, k []byte) error {
+	bk, err := d.GetBucket(db.BytesByHash)
+	if err != nil {
+		return err
+	}
+	o.bucket, o.hash, o.data = bk, append([]byte(nil), k...), nil
+	return nil
+}
+func (o *c20Blob) Flush() error {
+	if o.data != nil {
+		return o.bucket.Set(o.hash, o.data)
+	}
+	return nil
+}
+func (o *c20Blob) Equal(x trie.Object) bool {
+	o2, ok := x.(*c20Blob)
+	return ok && o2 != nil && bytes.Equal(o.hash, o2.hash)
+}
+func (o *c20Blob) ClearCache() {}
+func (o *c20Blob) Resolve(b merkle.Builder) error {
+	v, err := o.bucket.Get(o.hash)
+	if err != nil {
+		return err
+	}
+	if v == nil {
+		b.RequestData(db.BytesByHash, o.hash, o)
+	} else {
+		o.data = v
+	}
+	return nil
+}
+func (o *c20Blob) OnData(bs []byte, b merkle.Builder) error { o.data = bs; return nil }
+
+var c20BlobType = reflect.TypeOf((*c20Blob)(nil))
+
+func c20NewBlob(d db.Database, data []byte) *c20Blob {
+	bk, _ := d.GetBucket(db.BytesByHash)
+	return &c20Blob{bucket: bk, hash: crypto.SHA3Sum256(data), data: data}
+}
+
+// c20Obj: an object trie over Keys (hex); the blob of entry J is made
+// byte-identical to the trie node that ends the proof of entry I.
+type c20Obj struct {
+	Keys []string `json:"keys_hex"`
+	I    int      `json:"node_of"`
+	J    int      `json:"is_blob_of"`
+}
+
+var c20ObjKeys = []string{"\x00", "\x01", "\x10", "\x00\x11", "\x00\x12"}
+
+func c20EnumerateObj() []c20Obj {
+	var out []c20Obj
+	n := len(c20ObjKeys)
+	for m := 1; m < 1<<uint(n); m++ {
+		var ks []string
+		for i := 0; i < n; i++ {
+			if m&(1<<uint(i)) != 0 {
+				ks = append(ks, hex.EncodeToString([]byte(c20ObjKeys[i])))
+			}
+		}
+		if len(ks) < 2 || len(ks) > 3 {
+			continue
+		}
+		for i := range ks {
+			for j := range ks {
+				if i != j {
+					out = append(out, c20Obj{ks, i, j})
+				}
+			}
+		}
+	}
+	return out
+}
+
+func c20ObjSource(o c20Obj) *c20Source {
+	blobs := make([][]byte, len(o.Keys))
+	for i := range blobs {
+		blobs[i] = []byte(fmt.Sprintf("blob of entry %d %s", i, strings.Repeat("z", 30)))
+	}
+	build := func(d db.Database) trie.SnapshotForObject {
+		mu := ompt.NewMutableForObject(d, nil, c20BlobType)
+		for i, kh := range o.Keys {
+			k, _ := hex.DecodeString(kh)
+			mu.Set(k, c20NewBlob(d, blobs[i]))
+		}
+		sn := mu.GetSnapshot()
+		sn.Flush()
+		return sn
+	}
+	ki, _ := hex.DecodeString(o.Keys[o.I])
+	proof := build(db.NewMapDB()).GetProof(ki)
+	blobs[o.J] = append([]byte(nil), proof[len(proof)-1]...)
+	rec := &c20RecDB{inner: db.NewMapDB()}
+	sn := build(rec)
+	s := &c20Source{name: fmt.Sprintf("objtrie{keys %v, blob of #%d = last proof node of #%d}", o.Keys, o.J, o.I), root: sn.Hash(), items: c20Collect(rec)}
+	s.index()
+	s.start = func(b merkle.Builder) (interface{}, error) {
+		im := ompt.NewImmutableForObject(b.Database(), s.root, c20BlobType)
+		im.Resolve(b)
+		return im, nil
+	}
+	s.verify = func(target db.Database) string {
+		im := ompt.NewImmutableForObject(target, s.root, c20BlobType)
+		bk, _ := target.GetBucket(db.BytesByHash)
+		n := 0
+		for it := im.Iterator(); it.Has(); n++ {
+			ob, k, err := it.Get()
+			if err != nil {
+				return "iterator error: " + err.Error()
+			}
+			idx := -1
+			for i, kh := range o.Keys {
+				if kh == hex.EncodeToString(k) {
+					idx = i
+				}
+			}
+			if idx < 0 {
+				return fmt.Sprintf("unexpected key %x", k)
+			}
+			data, err := bk.Get(ob.Bytes())
+			if err != nil || !bytes.Equal(data, blobs[idx]) {
+				return fmt.Sprintf("blob of key %x not rebuilt (present=%v err=%v)", k, data != nil, err)
+			}
+			if err := it.Next(); err != nil {
+				return "iterator error: " + err.Error()
+			}
+			if n > 100 {
+				return "iterator does not terminate"
+			}
+		}
+		if n != len(o.Keys) {
+			return fmt.Sprintf("rebuilt trie has %d entries, source %d", n, len(o.Keys))
 		}
 		return ""
 	}
@@ -308,7 +500,8 @@ type c20Inst struct {
 
 type c20Case struct {
 	Source string  `json:"source"`
-	World  int     `json:"world,omitempty"` // 1 small, 2 large
+	World  int     `json:"world,omitempty"` // 1 small, 2 large, 3 large with code == storage trie node
+	Obj    *c20Obj `json:"object_trie,omitempty"`
 	KVs    []c20KV `json:"map,omitempty"`
 	Ops    []int   `json:"ops"`
 }
@@ -316,7 +509,7 @@ type c20Case struct {
 type c20Ctx struct {
 	r *ev.Run
 
-	evals, delivers, redeliver, unrequested, forged, completes, orders, dupRequesters, embeddedOnly int64
+	evals, delivers, redeliver, unrequested, forged, completes, orders, dupRequesters, twoBucketRequests, embeddedOnly int64
 }
 
 func (s *c20Source) opName(op int) string {
@@ -383,14 +576,22 @@ func (in *c20Inst) invariants(cx *c20Ctx, cs c20Case) []c20Req {
 		cx.r.Violation("UnresolvedCount-differs-from-Requests", fmt.Sprintf("%s: UnresolvedCount=%d, Requests() lists %d", src.describe(cs), n, len(reqs)), cs)
 	}
 	for _, rq := range reqs {
-		i, ok := src.byKey[rq.key]
-		if !ok {
-			cx.r.Violation("request-for-hash-outside-the-trusted-state", fmt.Sprintf("%s: request %x", src.describe(cs), rq.key), cs)
-		} else if in.delivered[i] {
-			cx.r.Violation("request-for-already-delivered-datum", fmt.Sprintf("%s: request %x", src.describe(cs), rq.key), cs)
+		for _, b := range rq.buckets {
+			i := src.find(b, rq.key)
+			if i < 0 {
+				cx.r.Violation("request-for-hash-outside-the-trusted-state", fmt.Sprintf("%s: request %s/%x", src.describe(cs), b, rq.key), cs)
+			} else if in.delivered[i] {
+				cx.r.Violation("request-for-already-delivered-datum", fmt.Sprintf("%s: request %s/%x", src.describe(cs), b, rq.key), cs)
+			}
 		}
 		if len(rq.buckets) > 1 {
 			atomic.AddInt64(&cx.dupRequesters, 1)
+			for _, b := range rq.buckets[1:] {
+				if b != rq.buckets[0] {
+					atomic.AddInt64(&cx.twoBucketRequests, 1)
+					break
+				}
+			}
 		}
 	}
 	complete := in.nDeliv == len(src.items)
@@ -415,8 +616,8 @@ func (in *c20Inst) invariants(cx *c20Ctx, cs c20Case) []c20Req {
 
 func (in *c20Inst) firstOutstanding(reqs []c20Req) (c20Item, bool) {
 	for _, rq := range reqs {
-		if i, ok := in.src.byKey[rq.key]; ok {
-			return in.src.items[i], true
+		if is := in.src.byKey[rq.key]; len(is) > 0 {
+			return in.src.items[is[0]], true
 		}
 	}
 	return c20Item{}, false
@@ -516,9 +717,19 @@ func (in *c20Inst) apply(cx *c20Ctx, op int, cs c20Case, count bool) bool {
 				cx.r.Violation("stored-something-else-on-delivery", fmt.Sprintf("%s: wrote %s/%x (genuine value=%v, delete=%v)", src.describe(cs), w.bucket, w.key, w.val == it.val, w.del), cs)
 			}
 		}
-		if !in.delivered[op] {
-			in.delivered[op] = true
-			in.nDeliv++
+		// every bucket that requested the hash must now hold it
+		for _, b := range want.buckets {
+			stored := false
+			for _, w := range writes {
+				stored = stored || (!w.del && w.bucket == b && w.key == it.key && w.val == it.val)
+			}
+			if !stored {
+				cx.r.Violation("requested-datum-not-stored-in-a-requesting-bucket", fmt.Sprintf("%s: %x requested for buckets %q, bucket %q was not written", src.describe(cs), it.key[:4], want.buckets, b), cs)
+			}
+			if i := src.find(b, it.key); i >= 0 && !in.delivered[i] {
+				in.delivered[i] = true
+				in.nDeliv++
+			}
 		}
 	} else {
 		if err == nil {
@@ -562,7 +773,7 @@ func c20Run(cx *c20Ctx, src *c20Source, cs c20Case, hist []byte) (string, bool) 
 		cs.Ops = append(cs.Ops, int(o))
 		last := i == len(hist)-2
 		if last {
-			in.invariants(cx, c20Case{cs.Source, cs.World, cs.KVs, cs.Ops[:i]})
+			in.invariants(cx, c20Case{cs.Source, cs.World, cs.Obj, cs.KVs, cs.Ops[:i]})
 		}
 		if !in.apply(cx, int(o), cs, last) {
 			return "", false
@@ -601,8 +812,8 @@ func c20Orders(cx *c20Ctx, src *c20Source, cs c20Case, prefix []int, stop func()
 		return
 	}
 	for _, rq := range reqs {
-		if i, ok := src.byKey[rq.key]; ok {
-			c20Orders(cx, src, cs, append(append([]int(nil), prefix...), i), stop)
+		if is := src.byKey[rq.key]; len(is) > 0 {
+			c20Orders(cx, src, cs, append(append([]int(nil), prefix...), is[0]), stop)
 		}
 	}
 }
@@ -628,11 +839,11 @@ func c20Enumerate(keys, vals []string, maxN int) [][]c20KV {
 }
 
 func c20SourceOf(c c20Case) *c20Source {
-	switch c.World {
-	case 1:
-		return c20WorldSource(false)
-	case 2:
-		return c20WorldSource(true)
+	if c.World > 0 {
+		return c20WorldSource(c.World)
+	}
+	if c.Obj != nil {
+		return c20ObjSource(*c.Obj)
 	}
 	return c20TrieSource(c.KVs)
 }
@@ -650,7 +861,7 @@ func TestVerifC20(t *testing.T) {
 			h = append(h, byte(o))
 		}
 		fmt.Println("replaying", src.describe(c))
-		c20Run(cx, src, c20Case{Source: c.Source, World: c.World, KVs: c.KVs}, h)
+		c20Run(cx, src, c20Case{Source: c.Source, World: c.World, KVs: c.KVs, Obj: c.Obj}, h)
 		r.Finish(false)
 		return
 	}
@@ -672,11 +883,27 @@ func TestVerifC20(t *testing.T) {
 		sources = append(sources, s)
 		cases = append(cases, c20Case{Source: s.name, KVs: m})
 	}
-	for w := 1; w <= 2; w++ {
-		s := c20WorldSource(w == 2)
+	for w := 1; w <= 3; w++ {
+		s := c20WorldSource(w)
 		sources = append(sources, s)
 		cases = append(cases, c20Case{Source: s.name, World: w})
+		if w == 3 {
+			r.Sanity(s.sharedHashes() == 1, "world variant 3 has %d hashes in two buckets", s.sharedHashes())
+		}
 	}
+	nObjShared := 0
+	for _, o := range c20EnumerateObj() {
+		o := o
+		s := c20ObjSource(o)
+		if s.sharedHashes() == 0 {
+			continue // the aliased node changed with the blob: not a two-bucket source
+		}
+		nObjShared++
+		sources = append(sources, s)
+		cases = append(cases, c20Case{Source: s.name, Obj: &o})
+	}
+	r.Sanity(nObjShared >= 20, "only %d object-trie sources with a hash in two buckets", nObjShared)
+	r.Set("sources_with_a_hash_in_two_buckets", nObjShared+1)
 	var mu sync.Mutex
 	var states, transitions, replays, srcDone int
 	complete := true
@@ -756,6 +983,8 @@ func TestVerifC20(t *testing.T) {
 	r.Set("completed_syncs_verified_after_flush", cx.completes)
 	r.Set("complete_delivery_orders_enumerated", cx.orders)
 	r.Set("states_with_a_request_shared_by_several_requesters", cx.dupRequesters)
+	r.Set("states_with_one_request_for_two_different_buckets", cx.twoBucketRequests)
+	r.Sanity(cx.twoBucketRequests > 0, "no state in which one hash is requested for two different buckets")
 	r.Sanity(cx.delivers > 100 && cx.redeliver > 100 && cx.unrequested > 100 && cx.forged > 100 && cx.completes > 10 && cx.orders > 10,
 		"vacuity: delivers=%d redeliver=%d unrequested=%d forged=%d completes=%d orders=%d", cx.delivers, cx.redeliver, cx.unrequested, cx.forged, cx.completes, cx.orders)
 	r.Finish(complete && srcDone == len(sources))
